@@ -40,6 +40,10 @@ def main(argv):
         data = json.load(open(path if os.path.isabs(path) else os.path.join(common.VERIF, path)))
         return mod.replay(data)
     ctx = common.Ctx(pid, tier, seed)
+    # the implementation logs (and swallows) per-line failures: keep them off the terminal; harnesses that care attach a handler
+    import logging
+    logging.lastResort = None
+    logging.getLogger().addHandler(logging.NullHandler())
     try:
         if hasattr(mod, 'translate'):
             mod.translate(ctx)
